@@ -60,8 +60,9 @@ MANIFEST = {
                 "descriptor orders), daemonize in a forked copy; the getopt reference is cross-checked against Python's getopt.gnu_getopt on their common class.",
         "note": "Trusted: Lean kernel + standard axioms; the semantics tools/gen_args.py gives the translated C++ subset (CSem.lean: checked "
                 "blocks, pointer = null | (block, offset), char** / const Option* as indices, operands left to right, &&/||/?: as control "
-                "flow, loops over fuel) and its parser; String::length / find / compare(...)==0 / attach / append / clear / isEmpty and "
-                "List::append are primitives modelled by hand (strlenL, findL, cmpN, slice), not translated; the translated-code theorems "
+                "flow, loops over fuel) and its parser; String::length / find / compare are translated from String.hpp and proved to be "
+                "strlenL / findL / cmpN (PropsStr.lean); String::attach / append / clear / isEmpty and List::append are primitives modelled by "
+                "hand (slice, list append), not translated; the translated-code theorems "
                 "assume argv bytes < 256 (needed where the code narrows int to char) and compare splitCommandLine on terminated buffers only.  "
                 "System calls of the translated Process-object functions: ::close / ::kill append to a trace, `waitpid(pid, &status, 0) != "
                 "(pid_t)pid` is one oracle-answered condition (waitpid returns the requested pid or -1), CSemProc.lean.  "
@@ -90,7 +91,7 @@ MANIFEST = {
     }
 }
 PROPS = ["Nstd.Args.Props", "Nstd.Args.PropsWait", "Nstd.Args.PropsRun", "Nstd.Args.PropsRead", "Nstd.Args.PropsFds",
-         "Nstd.Args.PropsCode", "Nstd.Args.PropsProc", "Nstd.Args.PropsSel"]
+         "Nstd.Args.PropsCode", "Nstd.Args.PropsProc", "Nstd.Args.PropsSel", "Nstd.Args.PropsStr"]
 LEAN_TARGETS = PROPS + ["drv_args"]
 DRIVER = "drv_args"
 SOURCES = ["args.cpp", C.REPO / "src/String.cpp", C.REPO / "src/Memory.cpp", C.REPO / "src/Debug.cpp",
@@ -1039,7 +1040,8 @@ ASSUMPTIONS = [
     "tie by translation (tools/gen_args.py -> Nstd/Generated/ArgsCode.lean, proved equal to the model in PropsCode.lean): the semantics given to "
     "the translated C++ subset (CSem.lean: checked blocks, null | (block, offset) pointers, char** / const Option* as indices, operands "
     "evaluated left to right, short-circuit operators and ?: as control flow, loops over fuel, char compared as bytes, int <- char sign-extends); "
-    "String::length/find/compare/attach/append/clear/isEmpty and List::append are hand-modelled primitives; argv bytes < 256; system calls of "
+    "String::attach/append/clear/isEmpty and List::append are hand-modelled primitives (String::length/find/compare are translated: PropsStr.lean); "
+    "argv bytes < 256; system calls of "
     "the translated Process functions: close/kill/_exit/read/write append to a trace, waitpid / select / ::read on a pipe are answered by an oracle "
     "resp. the assumed kernel of ReadSel.lean (CSemProc.lean, CSemSel.lean); setenv/unsetenv as POSIX documents",
     "memory model of the Lean model: every argv word and every option name is a separate block holding the bytes and the terminator; reads are checked against its extent",
